@@ -119,7 +119,7 @@ pub fn replay_market(doc: &Value) -> i32 {
 pub fn c05(ctx: &Ctx) -> i32 {
     let spec = c05_book_spec(ctx.tier);
     let out = run_book_spec(ctx, &spec);
-    let espec = EnvSpec { check: "c05", flags: E_OVERFULL, env_types: all_types(), sessions: ctx.tier.pick(5000, 150_000), max_steps: 25, toggle_rate: 0.03, offgrid_rate: 0.0 };
+    let espec = EnvSpec { check: "c05", flags: E_OVERFULL, env_types: all_types(), sessions: ctx.tier.pick(15_000, 400_000), max_steps: 25, toggle_rate: 0.03, offgrid_rate: 0.0 };
     let eout = run_env_spec(ctx, &espec);
     let c = &out.census;
     let e = &eout.census;
@@ -287,7 +287,7 @@ pub fn c07(ctx: &Ctx) -> i32 {
         mons: M_RELOAD,
         policy: TiePolicy::StopOnTie,
         exh: vec![],
-        rnd: vec![(p, ctx.tier.pick(8000, 150_000))],
+        rnd: vec![(p, ctx.tier.pick(16_000, 150_000))],
         nontrivial: |c| c.forks > 0 && c.fork_comparisons > 1,
         nontrivial_rule: "at least one reloaded copy was created and then driven in lock-step with the original",
     };
@@ -359,8 +359,8 @@ pub fn c07(ctx: &Ctx) -> i32 {
 pub fn c12(ctx: &Ctx) -> i32 {
     let spec = c12_book_spec(ctx.tier);
     let mut out = run_book_spec(ctx, &spec);
-    let mout = run_market_spec(ctx, "c12", MK_GRID, &[0, 1, 2, 3, 4, 5], ctx.tier.pick(4000, 80_000), 120);
-    let espec = EnvSpec { check: "c12", flags: E_GRID, env_types: all_types(), sessions: ctx.tier.pick(3000, 80_000), max_steps: 15, toggle_rate: 0.03, offgrid_rate: 0.15 };
+    let mout = run_market_spec(ctx, "c12", MK_GRID, &[0, 1, 2, 3, 4, 5], ctx.tier.pick(8000, 160_000), 120);
+    let espec = EnvSpec { check: "c12", flags: E_GRID, env_types: all_types(), sessions: ctx.tier.pick(9000, 200_000), max_steps: 15, toggle_rate: 0.03, offgrid_rate: 0.15 };
     let eout = run_env_spec(ctx, &espec);
     // accept/reject clause for arbitrary u32 prices and large ticks (no level getters consulted)
     let mut rng = Sm::derive(ctx.seed, 0xC12);
@@ -428,8 +428,8 @@ pub fn c12(ctx: &Ctx) -> i32 {
 pub fn c13(ctx: &Ctx) -> i32 {
     let spec = c13_book_spec(ctx.tier);
     let mut out = run_book_spec(ctx, &spec);
-    let mout = run_market_spec(ctx, "c13", MK_FLAG, &[0, 1, 2, 3, 4, 5], ctx.tier.pick(4000, 80_000), 150);
-    let espec = EnvSpec { check: "c13", flags: E_FLAG | E_STEP, env_types: all_types(), sessions: ctx.tier.pick(4000, 100_000), max_steps: 25, toggle_rate: 0.25, offgrid_rate: 0.0 };
+    let mout = run_market_spec(ctx, "c13", MK_FLAG, &[0, 1, 2, 3, 4, 5], ctx.tier.pick(12_000, 240_000), 150);
+    let espec = EnvSpec { check: "c13", flags: E_FLAG | E_STEP, env_types: all_types(), sessions: ctx.tier.pick(12_000, 300_000), max_steps: 25, toggle_rate: 0.25, offgrid_rate: 0.0 };
     let eout = run_env_spec(ctx, &espec);
     let c = &out.census;
     let mut violations = std::mem::take(&mut out.violations);
@@ -829,7 +829,7 @@ fn shuffle_worker<E: SimEnv>(seed: u64, work: &[(usize, u64)], t: &mut ShuffleTa
 }
 
 pub fn c15(ctx: &Ctx) -> i32 {
-    let scale = ctx.tier.pick(1u64, 10u64);
+    let scale = ctx.tier.pick(3u64, 20u64);
     // (n, steps) work list; split into chunks for the worker threads
     let mut plan: Vec<(usize, u64)> = vec![(2, 200_000), (3, 200_000), (4, 200_000), (5, 200_000), (6, 2_000_000), (7, 100_000), (8, 100_000)];
     for n in 9..=24usize {
